@@ -185,9 +185,24 @@ fn main() {
     for c in cons_probes.iter() {
         programs.push((format!("min x\ns.t.\n    {}\nwhere\n    let n = 3\n    let k = 2.5\n    let b = true\n    let s = \"str\"\n    let A = [1, 2, 3]\n    let M = [[1, 2], [3, 4]]\n    let S = [\"p\", \"q\"]\n    let G = Graph {{ A -> [B: 2, C], B -> [C], C }}\n    let v = \"A\"\ndefine\n    x as Real\n    x_i as Real for i in 0..4\n    x_p, x_q as Real", c), "probe"));
     }
-    let decl_probes = ["y as Real(s, 10)", "y as Real(0, G)", "y as IntegerRange(k, 3)", "y as IntegerRange(0, s)", "y as IntegerRange(b, 3)", "y as NonNegativeReal(A, 3)", "y_i as Real for i in s", "y_i as Real for (i, j) in A", "y_i as Real for (i, j, l) in enumerate(A)", "y_i as Real for (i, j, l, o) in edges(G)", "y_i as Boolean for i in 0..len(n)", "y as Integer", "y as Real(0)", "y as Boolean(1)"];
+    let decl_probes = ["y as Real(s, 10)", "y as Real(0, G)", "y as IntegerRange(k, 3)", "y as IntegerRange(0, s)", "y as IntegerRange(b, 3)", "y as NonNegativeReal(A, 3)", "y_i as Real for i in s", "y_i as Real for (i, j) in A", "y_i as Real for (i, j, l) in enumerate(A)", "y_i as Real for (i, j, l, o) in edges(G)", "y_i as Boolean for i in 0..len(n)", "y as Integer", "y as Real(0)", "y as Boolean(1)",
+        // declarations with a single bound
+        "y as Real(s)", "y as Real(G)", "y as Real(A)", "y as NonNegativeReal(s)", "y as NonNegativeReal(len(n))", "y as NonNegativeReal(nope)", "y as Real(n)", "y as NonNegativeReal(k)", "y as NonNegativeReal(b)"];
     for d in decl_probes.iter() {
         programs.push((format!("min x\ns.t.\n    x >= 1\nwhere\n    let n = 3\n    let k = 2.5\n    let b = true\n    let s = \"str\"\n    let A = [1, 2, 3]\n    let G = Graph {{ A -> [B: 2, C], B -> [C], C }}\ndefine\n    x as Real\n    {}", d), "probe"));
+    }
+    // objectives of every kind of value, and constants defined by every kind of expression (block functions included)
+    let obj_probes = ["s", "A", "G", "S", "M", "M[0]", "v", "b", "n", "k", "x + s", "len(A)", "A[0]", "S[0]", "nodes(G)", "x + b", "-s", "not b", "sum(i in S) { i }", "min { s, 1 }"];
+    for o in obj_probes.iter() {
+        for dir in ["min", "max"] {
+            programs.push((format!("{} {}\ns.t.\n    x <= 10\nwhere\n    let n = 3\n    let k = 2.5\n    let b = true\n    let s = \"str\"\n    let A = [1, 2, 3]\n    let M = [[1, 2], [3, 4]]\n    let S = [\"p\", \"q\"]\n    let G = Graph {{ A -> [B: 2, C], B -> [C], C }}\n    let v = \"A\"\ndefine\n    x as Real", dir, o), "probe"));
+        }
+    }
+    let let_probes = ["sum(i in A) { i }", "prod(i in A) { i }", "min(i in A) { i }", "max(i in A) { i }", "avg(i in A) { i }", "min { 1, 2 }", "max { n, k }", "avg { 1, 2 }", "abs { n }", "abs { 0 - k }", "len(A) + 1", "A[0] * 2", "n + sum(i in A) { i }", "[sum(i in A) { i }, 2]", "len(S)", "n * k", "not b", "-n", "s", "nodes(G)", "edges(G)", "A[n - 3]", "x", "x + 1"];
+    for l in let_probes.iter() {
+        for usage in ["x >= 1", "x >= t", "x >= 0 for i in 0..t", "x + A[t] >= 0"] {
+            programs.push((format!("min x\ns.t.\n    {}\nwhere\n    let n = 3\n    let k = 2.5\n    let b = true\n    let s = \"str\"\n    let A = [1, 2, 3]\n    let S = [\"p\", \"q\"]\n    let G = Graph {{ A -> [B: 2, C], B -> [C], C }}\n    let t = {}\ndefine\n    x as Real", usage, l), "probe"));
+        }
     }
     if let Some(cp) = corpus { if let Ok(f) = std::fs::read_to_string(cp) { for line in f.lines() { if let Ok(s) = serde_json::from_str::<String>(line) { programs.push((s, "corpus")); } } } }
     for (i, (src, stream)) in programs.iter().enumerate() {
@@ -203,7 +218,9 @@ fn main() {
                 Some(k) if k == "CannotDestructure" && !static_width_only(src) => rep.count(&format!("{stream}.accepted.data_dependent_error")),
                 Some(k) => { let b = base(&e);
                     // a decision variable of the generated program (x, x_<index>) used where a value is needed
-                    let k = match b { TransformError::UndeclaredVariable(nm) if *stream == "perturbed" && (nm == "x" || nm.starts_with("x_")) => "decision-variable-in-value-position", _ => k };
+                    let k = match b { TransformError::UndeclaredVariable(nm) if (*stream == "perturbed" || *stream == "probe") && (nm == "x" || nm.starts_with("x_")) => "decision-variable-in-value-position",
+                        // PreExp::as_primitive on a block function (sum/prod/min/max/avg/abs blocks): no value at transform time
+                        TransformError::WrongArgument { got: PrimitiveKind::Undefined, expected: PrimitiveKind::Any } => "block-function-in-value-position", _ => k };
                     rep.fail(json!({"prop":"C19","kind":"accepted-program-fails-with-type-class-error","class":k,"input":src,"error":format!("{}", e.traced_error()).chars().take(300).collect::<String>(),"base":format!("{:?}", b).chars().take(200).collect::<String>()})); }
                 None => rep.count(&format!("{stream}.accepted.data_dependent_error")),
             },
